@@ -26,7 +26,7 @@ def gen_cases(seed, tier):
     cases = []
     for w in range(1, wmax + 1):
         cases.append({"cls": "box", "nswin": w, "nsmax": nsmax, "_w": w * nsmax / 2000.0})
-    nrand = 4000 if tier == "thorough" else 600
+    nrand = 40000 if tier == "thorough" else 600
     per = 200
     for k in range(nrand // per):
         cases.append({"cls": "random-large", "n": per, "seed": seed * 1000 + k, "_w": 1.0})
